@@ -15,47 +15,47 @@ NOTE = ("Trusted base: go/packages+go/ssa, the executor's SSA semantics and its 
 CHECKS = {
  "C03": ("4/C03", "--fuel 300000", "--fuel 300000 --budget 30m",
          "Bounded model checking of lexer+parser+ast printers: for every input inside the bounds no feasible path panics, exhausts its instruction budget (non-termination) or returns neither a tree nor an error with a message.",
-         "Bounds quick: every byte string (all 256 values) of length <= 4 as a whole template; <= 2 arbitrary bytes inside each of 14 tag framings (closed, unclosed, nested openers); 3 arbitrary bytes inside the 3 basic framings; every sequence of 2 atoms over the full token vocabulary (57 atoms incl. symbolic identifier/number/string atoms) in the 3 basic framings; 1 byte through plush.Parse/Render. Thorough: raw <= 6 bytes, 3 bytes in all framings, 4 bytes in <% S %> and <%= S %>, 3 atoms. Outside: longer inputs, nesting depth 256, random soup."),
+         "Bounds quick: every byte string (all 256 values) of length <= 4 as a whole template; <= 2 arbitrary bytes inside each of 14 tag framings (closed, unclosed, nested openers); 3 arbitrary bytes inside the 3 basic framings; every sequence of 2 atoms over the full token vocabulary (57 atoms incl. symbolic identifier/number/string atoms) in the 3 basic framings; 1 byte through plush.Parse/Render. Thorough: raw <= 6 bytes, 3 bytes in all framings, 4 bytes in <% S %> and <%= S %>, 3 atoms. Also: 18 framings in total (closed, unclosed, nested openers, header positions of if/for/fn), and histories Parse/Render/Parse with the template cache on. Outside: longer inputs, nesting depth 256, random soup."),
  "C10": ("4/C10", "", "--budget 30m",
          "Bounded model checking of plush.Context against an abstract chain-of-maps model written from the property: bounded histories (every sequence of New/Set over a tree of <= 4 contexts with two symbolic one-byte keys and a built-in name, values arbitrary ints or nil, all Value/Has observations compared after every step) plus the inductive step (arbitrary symbolic pre-state built through the exported constructors, one operation, all observations compared).",
          "Bounds quick: histories of 3 operations; step over chain root<-c1<-c2 with <= 1 binding per scope from a pool {1 arbitrary byte, 3 arbitrary bytes (may spell a built-in)}; thorough: histories of 4, step with a sibling and a third key. Excluded by assumption: a built-in helper name bound to nil (the property does not fix what later children see); the wrapped context.Context fallback with non-string keys."),
  "C19": ("4/C19", "", "--budget 30m",
          "Bounded model checking of range/between/until/groupBy/len: init and step lemmas of the counter iterator over all 2^64 values of every argument (so the int extremes are single solver models), bounded sequences, and the groupBy partition laws for every group count n (64 bit symbolic) and every slice length within the bound with symbolic elements, for both shipped implementations.",
-         "Bounds quick: slice length <= 12; sequences of <= 4 elements from an arbitrary start; thorough: slice length <= 40. Outside: arrays passed by value to groupBy (a C04 matter), the through-template form (covered by C08 harnesses), element types other than int/string/struct/pointer."),
+         "Bounds quick: slice length <= 12; sequences of <= 4 elements from an arbitrary start; thorough: slice length <= 40. Outside: arrays passed by value to groupBy (a C04 matter), the through-template form beyond the fixed programs of harness through_template (loops over range/between/until/groupBy(2, xs) with an arbitrary 64-bit start and 0-3 elements, rendered through Render and compared with the unrolled sequence), element types other than int/string/struct/pointer."),
 
  "C02": ("4/C02", "", "--budget 30m",
          "Bounded model checking of lexer+parser+evaluator against a reference scanner written from the statement: literal text is copied byte for byte except for the escapes \\<% and \\\\<%, output tags contribute their (escaped) value, code and comment tags nothing; double-quoted and back-quoted string literals denote the characters between their quotes.",
-         "Bounds quick: every NUL-free byte string of length <= 5 as text (tag openers formed by text bytes excluded by assumption, stated in the harness); s0 TAG s1 [TAG z] with |s_i| <= 2 and TAG from a catalogue of 11 output/code/comment tags; string-literal contents <= 3 arbitrary bytes in 3 uses; the same inside if/for/fn/block-helper bodies with |s_i| <= 1. Thorough: 7 / 3 / 5 / 2 bytes. Outside: NUL, unterminated strings, longer texts."),
+         "Bounds quick: every NUL-free byte string of length <= 5 as text (tag openers formed by text bytes excluded by assumption, stated in the harness); s0 TAG s1 [TAG z] with |s_i| <= 2 and TAG from a catalogue of 11 output/code/comment tags; string-literal contents <= 3 arbitrary bytes in 3 uses; the same inside if/for/fn/block-helper bodies with |s_i| <= 1; back-slash escape sequences before tag openers (runs of <= 3 back-slashes). Thorough: 7 / 3 / 5 / 2 bytes. Outside: NUL, unterminated strings, longer texts."),
  "C04": ("4/C04", "", "--budget 30m",
          "Bounded model checking of the evaluator's totality: for every cell of the kind matrices no feasible path panics (every reflect precondition is an explicit check of the reflect model; Go run-time checks are explicit in the executor) and Render returns output or (\"\", error). Every panic candidate is replayed natively.",
-         "Matrices over a pool of 27 value kinds (ints with arbitrary 64-bit payload so negative/huge indexes are single models, strings with arbitrary bytes, typed nils, slices, arrays, maps of three key types, structs, pointers, functions of three signatures, iterator, template.HTML): 13 binary operators + ! + unary minus x L x R; container x index x {read, member-after-index, double index}; container x index x assigned value; receiver x 20 member/method expressions; iterable kinds; callee x 9 call shapes; 21 built-in helper calls x argument kinds; user functions x 14 call shapes. Outside: helpers backed by unmodelled libraries (pathFor, inflections, toJSON, env, debug), symbolic floats, random programs, regexp on symbolic strings."),
+         "Matrices over a pool of 33 value kinds (incl. pointer-to-map, named map/slice/string/int kinds) (ints with arbitrary 64-bit payload so negative/huge indexes are single models, strings with arbitrary bytes, typed nils, slices, arrays, maps of three key types, structs, pointers, functions of three signatures, iterator, template.HTML): 13 binary operators + ! + unary minus x L x R; container x index x {read, member-after-index, double index}; container x index x assigned value; receiver x 20 member/method expressions; iterable kinds; callee x 9 call shapes; 21 built-in helper calls x argument kinds; user functions x 14 call shapes; helpers whose iterator results are looped over; every program of 3 atoms (thorough: 4, also in silent tags) over a 38-atom vocabulary of identifiers, literals, operators, brackets and keywords as the content of a tag (token_programs). Outside: helpers backed by unmodelled libraries (pathFor, inflections, toJSON, env, debug), symbolic floats, random programs, regexp on symbolic strings."),
  "C05": ("4/C05", "", "--budget 30m",
          "Bounded model checking of error propagation: a recording helper that fails iff a symbolic flag is set is placed at 54 positions (operand of every operator, conditions, branch bodies, loop iterable/body, array/hash element, index, helper and user-function arguments, block-helper block, contentFor/contentOf, partial, let, assignment, silent tags); whenever it ran and failed, Render must return a non-nil error that errors.Is the sentinel, with empty output; guarded positions decide reachability symbolically.",
-         "Bounds: one failing call per template (plus a two-call harness), fixed surrounding templates. The tolerated fault (unknown identifier as condition / operand of ! == != && ||) is the negative control; a bare unknown identifier nested inside such an operand (id(nope), xs[nope]) is a grey area of the statement and is not decided."),
+         "Bounds: one failing call per template (plus a two-call harness), fixed surrounding templates. The tolerated fault (unknown identifier as condition / operand of ! == != && ||) is the negative control; Also: a failing call in two positions at once (both flags symbolic) and errors nested below a tolerated position. A bare unknown identifier nested inside such an operand (id(nope), xs[nope]) is a grey area of the statement and is not decided."),
  "C06": ("4/C06", "", "--budget 30m",
-         "Bounded model checking of operators against a reference: (1) one node a OP b with a, b arbitrary 64-bit ints / int64s / strings / bools / floats from a pool: rendered value equals Go's own operation on the same terms, division by zero and type mismatch are errors; (2) tree shape: every sequence of k operators with optional ! prefixes and one parenthesis pair, printed tree equals a reference precedence climber; (3) short-circuit with a recording helper and end-to-end a OP1 b OP2 c with three arbitrary ints against a typed reference evaluator.",
+         "Bounded model checking of operators against a reference: (1) one node a OP b with a, b arbitrary 64-bit ints / int64s / strings / bools / floats from a pool: rendered value equals Go's own operation on the same terms, division by zero and type mismatch are errors; (2) tree shape: every sequence of k operators with optional ! prefixes and one parenthesis pair, printed tree equals a reference precedence climber; (2b) chains of string concatenations and comparisons with arbitrary 1-byte strings; (3) short-circuit with a recording helper and end-to-end a OP1 b OP2 c with three arbitrary ints against a typed reference evaluator.",
          "Bounds quick: k = 2 operators (13^2 sequences x prefixes x paren placements); strings of <= 1 byte; thorough: k = 3, strings <= 2 bytes. Floats from a concrete pool of 6; ~= only on concrete strings; mixed bool/int comparisons are not decided (the statement does not fix them)."),
  "C07": ("4/C07", "", "--budget 30m",
-         "Bounded model checking of truthiness and chains: 22 value kinds with arbitrary payloads tested in 8 syntactic contexts against the statement's truth table; chains of n recording conditions with every truth assignment (symbolic booleans) at top level, in a for body, in a function, in a helper block: output is the block of the first truthy condition and the recorded evaluations are exactly 0..first.",
+         "Bounded model checking of truthiness and chains: 22 value kinds with arbitrary payloads tested in 8 syntactic contexts against the statement's truth table; chains of n recording conditions with every truth assignment (symbolic booleans) at top level, in a for body, in a function, in a helper block: output is the block of the first truthy condition and the recorded evaluations are exactly 0..first; a condition that fails (helper error, not an unknown identifier) is an error of the whole render, never a false branch.",
          "Bounds quick: chains of <= 2 conditions; thorough <= 4."),
  "C08": ("4/C08", "", "--budget 30m",
-         "Bounded model checking of for loops against an unrolled reference: 14 body shapes (emit, key+value, break/continue as first/middle/last statement, inside if/else, statement after the control block, code-form bodies with return) over slices with arbitrary int elements and an arbitrary threshold; 14 iterable kinds; maps under every iteration order; control statements before/after/inside nested loops.",
+         "Bounded model checking of for loops against an unrolled reference: 14 body shapes (emit, key+value, break/continue as first/middle/last statement, inside if/else, statement after the control block, code-form bodies with return) over slices with arbitrary int elements and an arbitrary threshold; 14 iterable kinds; maps under every iteration order; control statements before/after/inside nested loops; nil elements; iterator-valued iterables with break/continue; tolerated faults (unknown identifier in a condition) inside a body do not end or skip iterations.",
          "Bounds quick: slice length <= 2; thorough <= 4. Maps of <= 2 entries."),
  "C16": ("4/C16", "", "--budget 30m",
-         "Bounded model checking of user-defined functions: a decision-chain function over arbitrary int arguments and thresholds against its reference; argument expressions that mention caller variables named like the parameters; 12 uses of the result (operators, conditions, arguments, let); higher-order and recursive use; 0-4 parameters; nil arguments.",
+         "Bounded model checking of user-defined functions: a decision-chain function over arbitrary int arguments and thresholds against its reference; argument expressions that mention caller variables named like the parameters; 12 uses of the result (operators, conditions, arguments, let); higher-order and recursive use; 0-4 parameters; nil arguments (a nil argument must not fall through to an outer variable of the parameter's name); calls nested as arguments.",
          "Bounds: recursion depth <= 3 (concrete depth, symbolic data); fixed function bodies from the catalogue in DESIGN.md Appendix D."),
 
  "C01": ("4/C01", "", "--budget 30m",
-         "Bounded model checking of the output sink on every plumbing route: an arbitrary NUL-free payload is moved through sources (variable, struct field, nested pointer field, string map, interface map, slice element, whole slices) x 12 expression wrappers (let, +, [], {}, index, user function, Go helper, nesting, + raw(\"\")) x 14 block routes (if/else, for variable, for return, block helper, contentFor/contentOf block and data, partial data, partial with layout, partial reading the caller's scope, user function body, let); the emitted region must contain < > ' \" & only as entities and decode to the payload (entity spelling is not prescribed). Trusted values (template.HTML, HTMLer, raw()) on 8 routes must appear verbatim exactly once; mixed output keeps the string part escaped.",
+         "Bounded model checking of the output sink on every plumbing route: an arbitrary NUL-free payload is moved through sources (variable, struct field, nested pointer field, string map, interface map, slice element, whole slices) x 12 expression wrappers (let, +, [], {}, index, user function, Go helper, nesting, + raw(\"\")) x 14 block routes (if/else, for variable, for return, block helper, contentFor/contentOf block and data, partial data, partial with layout, partial reading the caller's scope, user function body, let); the emitted region must contain < > ' \" & only as entities and decode to the payload (entity spelling is not prescribed). Trusted values (template.HTML, HTMLer, raw()) on 8 routes must appear verbatim exactly once; mixed output keeps the string part escaped; helpers declared to return template.HTML vs string, and named string types (type S string, fmt.Stringer-less) are escaped like strings.",
          "Bounds quick: payload <= 2 bytes, wrapper depth 1; thorough: payload <= 4 bytes (an entity such as &lt; fits), wrapper depth 2. NUL excluded (Go's escaper maps it to U+FFFD)."),
  "C09": ("4/C09", "", "--budget 30m",
-         "Bounded model checking of scoping against an environment-chain reference: nestings of {for, user-function call, partial with data, contentFor/contentOf with data, block helper with its own child context} with a shadowing let, a fresh let and probes at every level; all bound values are distinct arbitrary ints so 'unchanged' and 'invisible' cannot hold by coincidence; plus stored blocks / functions / block helpers used from a scope other than the defining one.",
+         "Bounded model checking of scoping against an environment-chain reference: nestings of {for, user-function call, partial with data, contentFor/contentOf with data, block helper with its own child context} with a shadowing let, a fresh let and probes at every level; all bound values are distinct arbitrary ints so 'unchanged' and 'invisible' cannot hold by coincidence; plus stored blocks / functions / block helpers used from a scope other than the defining one, top-level let seen by later tags, and the same partial/function used repeatedly (no state carried between uses).",
          "Bounds quick: nesting depth <= 2 (5 + 25 nestings x 5 outer choices); thorough: depth 3. Assignment (x = ..) to outer variables from inside a scope is not addressed by the statement and not checked; if blocks and Block() on the caller's context are not scopes."),
  "C11": ("4/C11", "", "--budget 30m",
-         "Bounded model checking of path access: a struct/map/slice/array/pointer graph whose every leaf is its own arbitrary value; 48 paths (field, literal and variable index, map key, pointer, value and pointer methods, chained calls, method after index) compared with the same navigation written in Go; variable indexes range over all ints and variable keys over hit/miss; 19 uncompletable navigations must give an error or empty output; let / loop-iterable uses; method chains on a linked list (same method name up to 4 times).",
+         "Bounded model checking of path access: a struct/map/slice/array/pointer graph whose every leaf is its own arbitrary value; 48 paths (field, literal and variable index, map key, pointer, value and pointer methods, chained calls, method after index) compared with the same navigation written in Go; variable indexes range over all ints and variable keys over hit/miss; 19 uncompletable navigations must give an error or empty output; let / loop-iterable uses; method chains on a linked list (same method name up to 4 times); 23 further shapes (embedded struct fields and promoted methods, interface-held struct, slice of pointers with a nil entry, int-keyed map with a variable key, map of maps, map of slices, pointer to slice with a variable index).",
          "Bounds: graph depth 2, slices of length 2; leaves are 1-byte strings over a-z or arbitrary ints."),
  "C12": ("4/C12", "", "--budget 30m",
-         "Bounded model checking of helper argument binding with recording helpers: fixed parameters of int/string/bool/interface{}/pointer/map/slice types, auto-supplied trailing map and helper context (struct and interface typed) with and without block, variadic tails of int/string/interface{}, nil arguments, 21 rejected calls (too many / unassignable: error names the call and the helper did not run), result shapes (), (T), (T,error), (error), and evaluation order of argument expressions. Argument payloads are arbitrary.",
+         "Bounded model checking of helper argument binding with recording helpers: fixed parameters of int/string/bool/interface{}/pointer/map/slice types, auto-supplied trailing map and helper context (struct and interface typed) with and without block, variadic tails of int/string/interface{}, nil arguments, 21 rejected calls (too many / unassignable: error names the call and the helper did not run), result shapes (), (T), (T,error), (error), evaluation order of argument expressions, helper calls nested as arguments of helper calls, and an error result in every position where a fault could be tolerated (condition, operand of == != && || !): it must surface. Argument payloads are arbitrary.",
          "Bounds: <= 4 arguments; too few plain arguments are only checked for totality (C04), as the statement does not specify them."),
  "C13": ("4/C13", "", "--budget 30m",
          "Bounded model checking of determinism and immutability: 22 programs covering every node type are rendered twice along {same parsed template, fresh parse, Clone, cache cold/warm, cache off} with equal arbitrary data and with every iteration order of the Go maps ranged over during evaluation (independently per run); outputs, errors and helper-call records must agree. The parsed program is frozen before Exec: any store into memory reachable from it is a violation. Cache key: two arbitrary texts of <= 3 bytes share a cached template only if identical.",
@@ -64,14 +64,14 @@ CHECKS = {
          "Bounded model checking of error line numbers: 16 failing statements behind 8 preamble shapes (text, tags, multi-line double- and back-quoted strings, comment tags, line comments, white space inside tags, a block) whose filler bytes are symbolic over {\\n, \\r, space, letter}: the error starts with 'line N:' and N = 1 + number of newlines before the failing tag; shifting by k newlines (optionally after a letter) adds exactly k to every line number of the error and changes nothing else; failing tags inside if/for/function/helper-block bodies.",
          "Bounds quick: fillers <= 2 bytes, k <= 2; thorough: fillers <= 3 bytes, k <= 4. Only single-line failing tags are decided (for a statement inside a multi-line tag the statement's own line is reported and the property leaves that open)."),
  "C18": ("4/C18", "", "--budget 30m",
-         "Bounded model checking of layout insensitivity: 12 programs as token lists covering let, assignment, if/else, for (variable and call iterables, nested), fn, hash, operators, strings, helper calls, with statements directly after closing braces; re-layouts: arbitrary white space (space, tab, LF, CR) at any token gap incl. before %>, # line comments (LF and CRLF) with arbitrary bodies at any gap, every way of cutting the statement sequence into tags (space, newline, semicolon, tag split), <%# %> comment tags between tags; each must render exactly what the canonical layout renders.",
+         "Bounded model checking of layout insensitivity: 12 programs as token lists covering let, assignment, if/else, for (variable and call iterables, nested), fn, hash, operators, strings, helper calls, with statements directly after closing braces; re-layouts: arbitrary white space (space, tab, LF, CR) at any token gap incl. before %>, # line comments (LF and CRLF) with arbitrary bodies at any gap, every way of cutting the statement sequence into tags (space, newline, semicolon, tag split), <%# %> comment tags between tags and inside if/for/fn blocks; each must render exactly what the canonical layout renders.",
          "Bounds quick: one varying gap, separators <= 1 byte, comment bodies <= 1 byte; thorough: two gaps, <= 2 bytes. Known finding (not repaired, see known_findings.json): comment-tag bodies containing a quote, back quote or #."),
 
  "C17": ("4/C17", "", "--budget 30m",
-         "Bounded model checking of composition = inlining: for 7 bodies (text, output tags reading data and caller variables, loop, conditional, let, + and raw) and arbitrary data values, partial(name, data) / partial with layout / nested layout / nested partials to depth 3 / contentFor + contentOf (emits nothing where defined; used once, twice with different data, with omitted data, undefined with and without default block) / a recording block helper must produce exactly what the same source renders to inline in the caller's scope extended with the data (the inline rendering is computed by plush itself on the inlined source); JavaScript escaping exactly for a javascript content type and a non-.js extension.",
+         "Bounded model checking of composition = inlining: for 7 bodies (text, output tags reading data and caller variables, loop, conditional, let, + and raw) and arbitrary data values, partial(name, data) / partial with layout / nested layout / nested partials to depth 3 / contentFor + contentOf (emits nothing where defined; used once, twice with different data, with omitted data, undefined with and without default block) / a recording block helper / one data map shared by two partials / contentOf evaluated inside for, function and partial scopes must produce exactly what the same source renders to inline in the caller's scope extended with the data (the inline rendering is computed by plush itself on the inlined source); JavaScript escaping exactly for a javascript content type and a non-.js extension.",
          "Bounds quick: data values <= 1 arbitrary NUL-free byte; thorough <= 2 bytes. The inline reference relies on C01/C02 for the plain rendering."),
  "C20": ("4/C20", "", "--budget 30m",
-         "Bounded model checking of truncate / htmlEscape / jsEscape / raw: truncate over every byte string (invalid UTF-8 included, through the forking UTF-8 decoder), every 64-bit size and arbitrary trails against its laws (unchanged if short; else prefix of s on a character boundary + trail, at most max(size, len(trail)) characters), defaults, and the template form; htmlEscape output decodes to its input with no raw special; jsEscape on arbitrary ASCII plus concrete non-ASCII cases has no < > & =, no unescaped quote, no raw line break; raw(s) is byte-identical through Render. toJSON is NOT checked: encoding/json cannot be encoded within reach (sub-claim excluded, see DESIGN.md).",
+         "Bounded model checking of truncate / htmlEscape / jsEscape / raw: truncate over every byte string (invalid UTF-8 included, through the forking UTF-8 decoder), every 64-bit size and arbitrary trails against its laws (unchanged if short; else prefix of s on a character boundary + trail, at most max(size, len(trail)) characters), defaults, the template form, and multi-byte texts from rune classes (2/3/4-byte runes, combining marks) counted in characters not bytes; htmlEscape output decodes to its input with no raw special; jsEscape on arbitrary ASCII plus concrete non-ASCII cases has no < > & =, no unescaped quote, no raw line break; raw(s) is byte-identical through Render. toJSON is NOT checked: encoding/json cannot be encoded within reach (sub-claim excluded, see DESIGN.md).",
          "Bounds quick: |s| <= 3, |trail| <= 1; thorough |s| <= 5, |trail| <= 2; jsEscape <= 2 (3) symbolic ASCII bytes on the engine's model of text/template.JSEscape (validated against the stdlib by selftest)."),
 
  "C14": ("4/C14", "", "--budget 30m",
